@@ -40,7 +40,7 @@ class C03Cuckoo(CuckooWorld):
 SPEC = PropSpec(
     prop="C03",
     scenarios=[(1, C03Cuckoo)],
-    runs={"quick": 6000, "thorough": 200000},
+    runs={"quick": 40000, "thorough": 1500000},
     rule=("one run = one seeded configuration (capacity, bucket size, max_swaps, fingerprint bytes, auto_expand, "
           "expansion rate, plain/counting, hash strategy) and a history of <=40 add/remove/expand calls; every "
           "random.choice/randint the library makes is answered by the simulator (strategy or explicit tape); "
